@@ -358,7 +358,19 @@ func isCompressedExtension(p string) bool {
 }
 
 func CreateZip(zipPath string, filePaths []string) error {
-	f, err := os.Create(zipPath)
+	// Write the archive under a temporary name, so that a process killed
+	// while writing it does not leave a truncated archive behind under the
+	// final name.
+	tmpPath := zipPath + ".tmp"
+	if err := createZip(tmpPath, zipPath, filePaths); err != nil {
+		os.Remove(tmpPath)
+		return err
+	}
+	return os.Rename(tmpPath, zipPath)
+}
+
+func createZip(tmpPath, zipPath string, filePaths []string) error {
+	f, err := os.Create(tmpPath)
 	if err != nil {
 		return err
 	}
